@@ -84,4 +84,3 @@ func runEnterSlot(p *core.Prog) *core.Result {
 	}
 	return res
 }
-
